@@ -331,7 +331,7 @@ def check(case):
                         if abs(got - exp[cname]) > 1e-6:
                             v("hardware-differs-at-rest", "%s: %s channel %s last commanded %.6f, the logical colour %r after "
                               "brightness/colour correction needs %.6f" % (where, n, cname, got, tuple(c), exp[cname]))
-                involved[n] = [c]
+                involved[n] = [c] + [col for _, col in model[n].values()]     # hidden entries may show (or start a fade) later
 
         for o in case["ops"]:
             if vio:
